@@ -383,6 +383,7 @@ func (e *Env) evalSel(x *Expr) SVal {
 	// ghost field
 	if ts := e.t.eng.specs.Types[typeName(ST)]; ts != nil {
 		if gs, ok := ts.GhostField[x.Name]; ok && p != nil {
+			gs = e.t.ghostSort(gs, ST)
 			c := e.t.comp("H."+originName(ST)+".$"+x.Name, "(Array Int "+gs+")")
 			return SVal{S: e.inState(func() string { return app("select", e.t.get(c), p.Ref) }), Sort: gs}
 		}
@@ -638,6 +639,10 @@ func (e *Env) evalCall(x *Expr) SVal {
 	case "inv":
 		v := e.eval(x.Args[0])
 		return SVal{S: e.typeInv(v, x), Sort: "Bool"}
+	case "as": // as(T, x): reinterpret the reference x (Int) as a value of Go type T (for ghost sequences of object refs)
+		T := e.typeArg(x.Args[0])
+		v := e.eval(x.Args[1])
+		return SVal{S: v.S, T: T, Sort: t.sortOf(T)}
 	case "moninv": // conjunction of the monitor invariants of x's type, for object x
 		v := e.eval(x.Args[0])
 		n, ok := derefNamed(e.resolveT(v.T))
@@ -785,6 +790,21 @@ func (e *Env) typeInv(v SVal, x *Expr) string {
 	if ts == nil {
 		if n, ok := derefNamed(T); ok {
 			ts = e.t.eng.specs.Types[typeName(n.Origin())]
+		}
+	}
+	if ts != nil && len(ts.Invariants) == 0 {
+		// no type-level invariant: inv(x) means the invariants of x's monitors
+		var cs []string
+		for _, m := range ts.Monitors {
+			mr := &monRef{ts: ts, mon: m}
+			for _, inv := range m.Inv {
+				me := e.t.monEnv(mr, v.S)
+				me.st, me.old = e.st, e.old
+				cs = append(cs, me.evalBool(inv.E))
+			}
+		}
+		if len(cs) > 0 {
+			return and(cs...)
 		}
 	}
 	if ts == nil || len(ts.Invariants) == 0 {
